@@ -172,8 +172,39 @@ fn byte_token_case(k: u64) -> Case {
     Case { prop: "C18".into(), gen: "T-byte-tokens".into(), bytes, trap: trap.into(), fault_free: false, enc: "raw".into(), ..Case::default() }
 }
 
+/// Fourth list: a BOM pattern / valid multi-byte character / malformed byte in the MIDDLE of an
+/// otherwise ASCII UTF-8 stream, behind prefixes whose lengths sit on and around 64-byte and
+/// 4 KiB block boundaries.
+pub const MID_PREFIX: [usize; 15] = [0, 1, 2, 3, 63, 64, 65, 127, 128, 129, 191, 192, 4095, 4096, 4097];
+pub const MID_INSERT: [&[u8]; 6] = [&[0xEF, 0xBB, 0xBF], &[0xFF, 0xFE], &[0xFE, 0xFF], &[0xEF, 0xBF, 0xBD], &[0xE4, 0xB8, 0xAD], &[0x80]];
+pub fn midstream_count() -> u64 {
+    (MID_PREFIX.len() * MID_INSERT.len() * 2 * 4) as u64
+}
+fn midstream_case(k: u64) -> Case {
+    let trap = TRAPS[(k % 4) as usize];
+    let k = k / 4;
+    let with_tail = k % 2 == 1;
+    let k = k / 2;
+    let ins = MID_INSERT[(k % MID_INSERT.len() as u64) as usize];
+    let pre = MID_PREFIX[((k / MID_INSERT.len() as u64) % MID_PREFIX.len() as u64) as usize];
+    let mut bytes = Vec::with_capacity(pre + 16);
+    for i in 0..pre {
+        bytes.push(match i {
+            0 => b'k',
+            1 => b':',
+            2 => b' ',
+            _ => b'a' + (i % 26) as u8,
+        });
+    }
+    bytes.extend_from_slice(ins);
+    if with_tail {
+        bytes.extend_from_slice(b"b c\n");
+    }
+    Case { prop: "C18".into(), gen: "M-midstream".into(), bytes, trap: trap.into(), fault_free: false, enc: "raw".into(), ..Case::default() }
+}
+
 pub fn exhaustive_count(l: usize) -> u64 {
-    small_count(l) + shapes_count() + byte_token_count() + ztail_count()
+    small_count(l) + shapes_count() + byte_token_count() + midstream_count() + ztail_count()
 }
 
 fn small_bytes(mut i: u64) -> Vec<u8> {
@@ -227,11 +258,14 @@ pub fn generate(run_seed: u64, corpus: &Corpus, sw: &Swarm, i: u64, exhaustive: 
     if i < exhaustive && i >= exhaustive - ztail_count() {
         return ztail_case(i - (exhaustive - ztail_count()));
     }
-    if i < exhaustive && i >= exhaustive - ztail_count() - byte_token_count() {
-        return byte_token_case(i - (exhaustive - ztail_count() - byte_token_count()));
+    if i < exhaustive && i >= exhaustive - ztail_count() - midstream_count() {
+        return midstream_case(i - (exhaustive - ztail_count() - midstream_count()));
     }
-    if i < exhaustive && i >= exhaustive - ztail_count() - byte_token_count() - shapes_count() {
-        let k = i - (exhaustive - ztail_count() - byte_token_count() - shapes_count());
+    if i < exhaustive && i >= exhaustive - ztail_count() - midstream_count() - byte_token_count() {
+        return byte_token_case(i - (exhaustive - ztail_count() - midstream_count() - byte_token_count()));
+    }
+    if i < exhaustive && i >= exhaustive - ztail_count() - midstream_count() - byte_token_count() - shapes_count() {
+        let k = i - (exhaustive - ztail_count() - midstream_count() - byte_token_count() - shapes_count());
         return Case {
             prop: "C18".into(),
             gen: "U-utf8-shapes".into(),
